@@ -196,7 +196,14 @@ def build_nasty_dlis(rng):
                 chs.append(dict(name=b'X%d%d' % (lf, t) if c == 0 else b'C%d%d%d' % (lf, t, c), long_name=b'ln ' + rng.choice(NASTY_ASCII), rc=rc,
                                 units=rng.choice([b'm', b'', b'<u>', b'a&b', b'"']), dims=[1] if c == 0 else rng.choice([[1], [2]])))
             chans_all += chs
-            types.append(dict(name=b'FT%d' % t, channels=chs, n=rng.choice([1, 2, 5, 12]), description=rng.choice(NASTY_ASCII)))
+            n_ = rng.choice([1, 2, 5, 12])
+            # X values and frame numbers: evenly spaced, or uneven - among the uneven ones those whose ENDS look even (one stationary
+            # frame then a catch-up; a late start then a long last step: first + (second - first) * (count - 1) = last)
+            xr, fnos = list(range(n_)), list(range(1, n_ + 1))
+            if n_ >= 4:
+                xr = rng.choice([xr, xr, [0, 1, 1] + list(range(3, n_)), [0, 2] + list(range(3, n_)) + [2 * (n_ - 1)], [0, 1, 2] + [k_ + 7 for k_ in range(3, n_)]])
+                fnos = rng.choice([fnos, fnos, [1, 3] + list(range(4, n_ + 1)) + [2 * n_ - 1], [1, 2, 3] + [k_ + 9 for k_ in range(4, n_ + 1)]])
+            types.append(dict(name=b'FT%d' % t, channels=chs, n=n_, xr=xr, fnos=fnos, description=rng.choice(NASTY_ASCII)))
         order = []
         for t, ty in enumerate(types):
             order += [t] * ty['n']
@@ -230,10 +237,11 @@ def build_nasty_dlis(rng):
             data = b''
             for c, ch in enumerate(types[t]['channels']):
                 for e in range(ch['dims'][0]):
-                    data += c04.enc(ch['rc'], c04.value_of(ch['rc'], r, c, e))
-            payloads.append(GLg.iflr(types[t]['name'], r + 1, data))
+                    data += c04.enc(ch['rc'], c04.value_of(ch['rc'], types[t]['xr'][r] if c == 0 else r, c, e))
+            payloads.append(GLg.iflr(types[t]['name'], types[t]['fnos'][r], data))
             recs.append(dict(kind='I', type=0, enc=False))
-        truth.append(dict(eflrs=len(eflrs), types=[dict(name=ty['name'].decode(), n=ty['n'], description=ty['description']) for ty in types],
+        truth.append(dict(eflrs=len(eflrs), types=[dict(name=ty['name'].decode(), n=ty['n'], description=ty['description'], fnos=ty['fnos'],
+                                                     xs=[float(c04.value_of(ty['channels'][0]['rc'], r_, 0, 0)) for r_ in ty['xr']]) for ty in types],
                           well=well, company=company, params=params))
     for rec, pl in zip(recs, payloads):
         rec['len'] = len(pl)
@@ -302,11 +310,11 @@ def check_index_xml(ctx, doc, logical_index, truth, case):
             xa = expand_rle(iflr.find('Xaxis'), False)
             if int(iflr.get('count')) != ty['n'] or len(mem) != ty['n']:
                 return 'FrameArray %s: IFLR count %s, the file has %d frames' % (ty['name'], iflr.get('count'), ty['n'])
-            if fn != [float(m.frame_number) for m in mem] or fn != [float(k + 1) for k in range(ty['n'])]:
+            if fn != [float(m.frame_number) for m in mem] or fn != [float(k) for k in ty['fnos']]:
                 return 'FrameArray %s: frame numbers expand to %r, index holds %r' % (ty['name'], fn[:8], [m.frame_number for m in mem][:8])
             if pos != [m.logical_record_position.lrsh_position for m in mem]:
                 return 'FrameArray %s: record positions expand to %r, index holds %r' % (ty['name'], pos[:6], [m.logical_record_position.lrsh_position for m in mem][:6])
-            if xa != [float(m.x_axis) for m in mem] or xa != [k * 0.5 for k in range(ty['n'])]:
+            if xa != [float(m.x_axis) for m in mem] or xa != ty['xs']:
                 return 'FrameArray %s: X values expand to %r, index holds %r' % (ty['name'], xa[:8], [m.x_axis for m in mem][:8])
     vr = root.find('VisibleRecords')
     if vr is not None and expand_rle(vr, True) != list(logical_index.visible_record_positions):
